@@ -172,6 +172,7 @@ class Engine:
         self.uf: dict[str, z3.FuncDeclRef] = {}
         self.extra_axioms: list = []
         self.measure_arrays: dict[str, object] = {}
+        self.spec_default_reads = False                 # contract option: d[k] in a specification reads a defaultdict as `get(k, 0)`
         self._native_mods: dict[str, object] = {}
         self.fmt_templates: dict[str, z3.FuncDeclRef] = {}
         self.stats = {"inlined": set(), "contracts_used": set()}
@@ -1118,6 +1119,13 @@ class Engine:
             zero = z3.IntVal(0) if vt.kind == "int" else z3.RealVal(0)
             self.set_dict(st, base, z3.If(present, keys, so.App(keys, kz)), z3.If(present, vals, z3.Store(vals, kz, zero)))
             return V(vt, z3.If(present, z3.Select(vals, kz), zero))
+        if k == "dict" and len(base.t.args) == 3 and fr.spec and self.spec_default_reads:
+            # specification-level read of a defaultdict(int): the value a read would give (0 for a missing key)
+            kt, vt = base.t.args[:2]
+            kz = self.coerce(idx, kt).z
+            present = seq_ops(kt).Mem(self.dict_keys(st, base), kz)
+            zero = z3.IntVal(0) if vt.kind == "int" else z3.RealVal(0)
+            return V(vt, z3.If(present, z3.Select(self.dict_vals(st, base), kz), zero))
         if k == "dict":
             kt, vt = base.t.args[:2]
             kz = self.coerce(idx, kt).z
@@ -1239,7 +1247,15 @@ class Engine:
                 self.oblige(fr, st, "def", f"{exc}@comprehension", QForAll([var], z3.Implies(dom, present)),
                             info=f"definedness inside comprehension at {where}")
         if universal:
-            return QForAll([var], z3.Implies(guard, body))
+            from .qa import nested_patterns
+            full = z3.Implies(guard, body)
+            pats = nested_patterns(var, full)
+            if pats:
+                return QForAll([var], full, patterns=pats)
+            return QForAll([var], full)
+        if kind == "seq":
+            # the negated form (a universal) is instantiated on the members of the sequence
+            return z3.Exists([var], z3.And(guard, body), patterns=[dom])
         return z3.Exists([var], z3.And(guard, body))
 
     def ev_GeneratorExp(self, node, st, fr):
@@ -1294,7 +1310,29 @@ class Engine:
             cntf = self.ufn(f"CountP!{next(_fresh)}", so.S, z3.IntSort())
             self._last_filter = (R, seq, x, P, et)
             if conds and not fr.spec:
-                pass
+                # sums over a filtered list (lemma "filter-sum", proved by induction on the sequence in DESIGN.md 2.3 and
+                # validated by exhaustive interpretation): Sum(filter(P, s), m) = Sum(s, mask_P(m)),  |filter(P, s)| = Sum(s, ind_P)
+                n = next(_fresh)
+                self.assumptions.add("filter-sum lemma for list comprehensions [x for x in s if P(x)] (Sum over the result = Sum over s of the masked map)")
+                for vs, zero, one in ((z3.IntSort(), z3.IntVal(0), z3.IntVal(1)), (z3.RealSort(), z3.RealVal(0), z3.RealVal(1))):
+                    if str(vs) not in so.sum_fns and vs != z3.IntSort():
+                        continue
+                    Sm = so.Sum(vs)
+                    asort = z3.ArraySort(so.E, vs)
+                    mask = z3.Function(f"mask!{n}_{vs}", asort, asort)
+                    m = z3.Const(f"fm!{n}_{vs}", asort)
+                    st.assume(QForAll([m], Sm(R, m) == Sm(seq, mask(m)), patterns=[Sm(R, m)]))
+                    st.assume(QForAll([m, y], z3.Select(mask(m), y) == z3.If(Py, z3.Select(m, y), zero), patterns=[z3.Select(mask(m), y)]))
+                    if vs == z3.IntSort():
+                        st.assume(so.Len(R) == Sm(seq, mask(z3.K(so.E, one))))
+                    # extensionality of sums over the members (only emitted where a filter occurs)
+                    m1, m2 = z3.Const(f"xm1!{n}_{vs}", asort), z3.Const(f"xm2!{n}_{vs}", asort)
+                    W = z3.Function(f"sumdiff!{n}_{vs}", so.S, asort, asort, so.E)
+                    sv = z3.Const(f"xs!{n}_{vs}", so.S)
+                    ax = QForAll([sv, m1, m2], z3.Or(Sm(sv, m1) == Sm(sv, m2),
+                                                     z3.And(so.Mem(sv, W(sv, m1, m2)), z3.Select(m1, W(sv, m1, m2)) != z3.Select(m2, W(sv, m1, m2)))),
+                                 patterns=[z3.MultiPattern(Sm(sv, m1), Sm(sv, m2))])
+                    self.extra_axioms.append(ax)
             return V(ty.SeqV(et), R) if fr.spec else self.new_list(st, et, R)
         # map (with optional filter): only the length and pointwise image are characterised
         try:
